@@ -23,7 +23,7 @@ G = {}
 SENTINEL = ("sentinel", "earlier entry", None)
 
 
-HOSTILE_WORDS = ["{A}", "{0}", "%s", "%(x)s", "{", "}}", "\\N{X}", "${x}", "<b>", "a&b", "'q\"", "{:>9}", "%", "\\", "{a.b}", "[0]"]
+HOSTILE_WORDS = ["{A}", "{0}", "%s", "%(x)s", "{", "}}", "\\N{X}", "${x}", "<b>", "a&b", "'q\"", "{:>9}", "%", "\\", "{a.b}", "[0]", "e\u0301"]
 
 
 def words(n, seed=0):
